@@ -7,10 +7,14 @@ CONSTANTS
   MaxDepth = 4
   FORGET = {}
   NOCOPY = {}
+  OBJ = "grain"
+  ALIASARG = FALSE
+  UNWRITTEN = {}
   EmitMode = 2
 INVARIANT Coherent
 INVARIANT ReadFresh
 INVARIANT DepClosed
 INVARIANT CacheType
+INVARIANT UbiOwn
 INVARIANT EmitFinal
 CHECK_DEADLOCK FALSE
